@@ -8,7 +8,7 @@ import (
 
 // HTMLTok is one token of a strictly tokenised HTML fragment.
 type HTMLTok struct {
-	Kind        string // "start", "end", "text", "script-text"
+	Kind        string // "start", "end", "text", "script-text", "comment", "doctype"
 	Name        string
 	Attrs       []HTMLAttr
 	Text        string
@@ -17,10 +17,12 @@ type HTMLTok struct {
 
 type HTMLAttr struct{ Name, Value string }
 
-// TokenizeHTML is a small strict tokenizer: tags with double-quoted attributes, character
-// references in attribute values and text, raw text inside <script>. Anything it does not
-// understand (unquoted or single-quoted attributes, stray '<', comments) is an error, so a
-// page that only parses under browser error recovery is rejected.
+// TokenizeHTML is a small strict tokenizer: tags with double-quoted, single-quoted, unquoted or
+// valueless attributes, character references in attribute values and text, raw text inside
+// <script>, comments and a doctype. Anything that the HTML syntax calls a parse error (stray
+// '<', a quote or '=' or '<' inside an unquoted value, '<' inside a quoted one, a bare '&',
+// "--" inside a comment) is an error, so a page that only parses under browser error recovery
+// is rejected.
 func TokenizeHTML(s string) ([]HTMLTok, error) {
 	var out []HTMLTok
 	i := 0
@@ -51,6 +53,28 @@ func TokenizeHTML(s string) ([]HTMLTok, error) {
 			i += j + 1
 			continue
 		}
+		if strings.HasPrefix(s[i:], "<!--") {
+			e := strings.Index(s[i+4:], "-->")
+			if e < 0 {
+				return nil, fmt.Errorf("unterminated comment")
+			}
+			body := s[i+4 : i+4+e]
+			if strings.Contains(body, "--") || strings.HasPrefix(body, ">") || strings.HasPrefix(body, "->") {
+				return nil, fmt.Errorf("malformed comment")
+			}
+			out = append(out, HTMLTok{Kind: "comment", Text: body})
+			i += 4 + e + 3
+			continue
+		}
+		if len(s) >= i+9 && strings.EqualFold(s[i:i+9], "<!doctype") {
+			e := strings.IndexByte(s[i:], '>')
+			if e < 0 || strings.ContainsAny(s[i+1:i+e], "<\"'") {
+				return nil, fmt.Errorf("malformed doctype")
+			}
+			out = append(out, HTMLTok{Kind: "doctype", Text: strings.ToLower(s[i+2 : i+e])})
+			i += e + 1
+			continue
+		}
 		// start tag
 		j := i + 1
 		for j < len(s) && isNameChar(s[j]) {
@@ -62,7 +86,7 @@ func TokenizeHTML(s string) ([]HTMLTok, error) {
 		}
 		tok := HTMLTok{Kind: "start", Name: strings.ToLower(name)}
 		for {
-			for j < len(s) && (s[j] == ' ' || s[j] == '\n' || s[j] == '\t') {
+			for j < len(s) && isHTMLSpace(s[j]) {
 				j++
 			}
 			if j >= len(s) {
@@ -82,14 +106,44 @@ func TokenizeHTML(s string) ([]HTMLTok, error) {
 				k++
 			}
 			an := s[j:k]
-			if !isName(an) || k+1 >= len(s) || s[k] != '=' || s[k+1] != '"' {
+			if !isName(an) || k >= len(s) {
 				return nil, fmt.Errorf("attribute syntax in <%s> near %q", name, s[j:minInt(len(s), j+20)])
 			}
-			e := strings.IndexByte(s[k+2:], '"')
-			if e < 0 {
-				return nil, fmt.Errorf("unterminated attribute value")
+			if s[k] != '=' {
+				// an attribute without a value
+				if !isHTMLSpace(s[k]) && s[k] != '>' && !strings.HasPrefix(s[k:], "/>") {
+					return nil, fmt.Errorf("attribute syntax in <%s> near %q", name, s[j:minInt(len(s), j+20)])
+				}
+				tok.Attrs = append(tok.Attrs, HTMLAttr{strings.ToLower(an), ""})
+				j = k
+				continue
 			}
-			raw := s[k+2 : k+2+e]
+			if k+1 >= len(s) {
+				return nil, fmt.Errorf("unterminated tag <%s", name)
+			}
+			var raw string
+			switch q := s[k+1]; q {
+			case '"', '\'':
+				e := strings.IndexByte(s[k+2:], q)
+				if e < 0 {
+					return nil, fmt.Errorf("unterminated attribute value")
+				}
+				raw = s[k+2 : k+2+e]
+				j = k + 2 + e + 1
+				if j < len(s) && !isHTMLSpace(s[j]) && s[j] != '>' && !strings.HasPrefix(s[j:], "/>") {
+					return nil, fmt.Errorf("no space after the attribute value in <%s>", name)
+				}
+			default:
+				e := k + 1
+				for e < len(s) && !isHTMLSpace(s[e]) && s[e] != '>' {
+					e++
+				}
+				raw = s[k+1 : e]
+				if raw == "" || strings.ContainsAny(raw, "\"'=<`") {
+					return nil, fmt.Errorf("unquoted attribute value %q in <%s>", raw, name)
+				}
+				j = e
+			}
 			if strings.ContainsAny(raw, "<") {
 				return nil, fmt.Errorf("raw '<' inside attribute value")
 			}
@@ -98,7 +152,6 @@ func TokenizeHTML(s string) ([]HTMLTok, error) {
 				return nil, err
 			}
 			tok.Attrs = append(tok.Attrs, HTMLAttr{strings.ToLower(an), v})
-			j = k + 2 + e + 1
 		}
 		out = append(out, tok)
 		i = j
@@ -120,6 +173,8 @@ func minInt(a, b int) int {
 	}
 	return b
 }
+
+func isHTMLSpace(c byte) bool { return c == ' ' || c == '\n' || c == '\t' || c == '\r' || c == '\f' }
 
 func isNameChar(c byte) bool {
 	return c >= 'a' && c <= 'z' || c >= 'A' && c <= 'Z' || c >= '0' && c <= '9' || c == '-' || c == '_'
